@@ -2223,7 +2223,7 @@ PPNR_WIRES = [2, 3, 5, 8]
 BSPPNR_R = [0.5, 0.9, 0.15]
 
 
-def gen_detector_series(rng):
+def gen_detector_series(rng, force_repeat=False):
     """One Fock state (some mode holds 2+ photons) and a SERIES of detector lists for it: from one step to the next
     the detector on a mode keeps its kind -- hence its NAME -- but changes its parameters (wires / max detections /
     reflectivity), or the same description is built again as a new object.  Everything that outlives one call of
@@ -2252,11 +2252,10 @@ def gen_detector_series(rng):
         return fam
 
     steps = []
-    for k in range(rng.randint(3, 5)):
-        if steps and rng.random() < 0.15:
-            steps.append(list(steps[rng.randrange(len(steps))]))      # an earlier list again (new objects)
-        else:
-            steps.append([param(f, steps[-1][i] if steps else None) for i, f in enumerate(fams)])
+    for k in range(rng.randint(3, 4)):
+        steps.append([param(f, steps[-1][i] if steps else None) for i, f in enumerate(fams)])
+    if force_repeat or rng.random() < 0.4:
+        steps.append(list(steps[rng.randrange(len(steps) - 1)]))      # an earlier list again (new objects)
     return {"state": state, "steps": steps, "seed": rng.randrange(2 ** 31),
             "pass_type": rng.random() < 0.5}
 
@@ -2354,8 +2353,8 @@ def judge_detector_runs(chk, case, n, runs, replay, count=True):
 def detector_series_part(chk, n_series, n_samples):
     rng = chk.rng
     history = []
-    for _ in range(n_series):
-        case = gen_detector_series(rng)
+    for i in range(n_series):
+        case = gen_detector_series(rng, force_repeat=(i == 0))
         history.append(case)
         try:
             with watchdog(CALL_TIMEOUT):
@@ -2436,7 +2435,7 @@ def gen_series(rng, mode):
     else:
         if rng.random() < 0.5:
             base["detectors"] = [rng.choice(["pnr", "threshold", "ppnr2"]) for _ in range(m)]
-        if mode == "mutate" and rng.random() < 0.4:
+        if mode == "mutate" and m == 3 and rng.random() < 0.4:
             h = rng.randrange(m)
             base["heralds"] = {str(h): base["input"][h]}
             if sum(base["input"]) - base["input"][h] == 0:
@@ -2450,26 +2449,35 @@ def gen_series(rng, mode):
             #  stays: on a long-lived processor the filter is always given explicitly)
             cur["filter"] = rng.choice([1, None])
         steps.append(cur)
-        for _ in range(k - 1):
+        if mode == "mutate":
+            # one re-assignment of each kind, in a random order
+            whats = ["filter", "noise", "ps", "input"]
+            rng.shuffle(whats)
+        else:
+            whats = [rng.choice(["filter", "filter", "noise", "noise", "ps", "input"]) for _ in range(k - 1)]
+        for what in whats:
             cur = dict(cur)
-            what = rng.choice(["filter", "filter", "noise", "noise", "ps", "input"])
             n_user = sum(cur["input"]) - sum(her.values())
             if what == "filter":
                 cur["filter"] = rng.choice([f for f in range(0, n_user + 1) if f != cur["filter"]])
             elif what == "noise":
-                cur["noise"] = some_noise()
+                prev_noise = cur["noise"]
+                while cur["noise"] == prev_noise:
+                    cur["noise"] = some_noise()
                 if cur["filter"] is None:
                     cur["filter"] = 1
             elif what == "ps":
                 a = rng.choice(free)
                 cur["ps"] = None if cur["ps"] else rng.choice([f"[{a}] < 2", f"[{a}] > 0", f"[{a}] == 1"])
             else:
-                new = list(cur["input"])
-                for _t in range(10):
-                    cand = [new[i] if i in her else rng.choice([0, 1, 1]) for i in range(m)]
-                    if cand != cur["input"] and sum(cand) - sum(her.values()) >= 1:
-                        new = cand
-                        break
+                cands = []
+                for bits in itertools.product((0, 1), repeat=len(free)):
+                    cand = list(cur["input"])
+                    for i, b in zip(free, bits):
+                        cand[i] = b
+                    if cand != cur["input"] and sum(bits) >= 1:
+                        cands.append(cand)
+                new = rng.choice(cands)
                 cur["input"] = new
                 n_user = sum(new) - sum(her.values())
                 if cur["filter"] is not None and cur["filter"] > n_user:
@@ -2830,6 +2838,7 @@ def run(chk: core.Check):
         "gof-bunching-selected", "gof-performances-filter>=2", "gof-performances-shots-failing-both-tests",
         "det-series-step", "det-series-same-name-other-parameters", "det-series-same-description-new-objects",
         "series-step-detectors", "series-step-mutate", "series-step-fresh",
+        "series-mutate-filter", "series-mutate-noise", "series-mutate-ps", "series-mutate-input",
         "seed-path-fresh-objects", "seed-path-long-lived-objects",
     ]
     chk.lean = core.LeanDriver("C09")
